@@ -35,7 +35,9 @@ def cmdLoad : List Sexp → String
       (match loadNode env Gen.loaderTable FUEL n T with
        | .ok o => "ok " ++ showVal o.value ++ " | " ++ showCalls o.calls ++ " | ( "
                     ++ String.intercalate " " (o.trace.map hex) ++ " ) | " ++ showNode o.processed
-       | .error f => "err " ++ showErrL f.err ++ " | " ++ showCalls f.calls)
+       | .error f => "err " ++ showErrL f.err ++ " | " ++ showCalls f.calls ++ " | " ++
+                       (match processNode env Gen.loaderTable FUEL n T with
+                        | .ok _ => "construct" | .error _ => "process"))
     | _, _, _ => "bad-args"
   | _ => "bad-args"
 
@@ -82,7 +84,11 @@ def cmdLoadDoc : List Sexp → String
       (match loadDoc env Gen.loaderTable FUEL d T with
        | .ok o => "ok " ++ showVal o.value ++ " | " ++ showCalls o.calls ++ " | ( "
                     ++ String.intercalate " " (o.trace.map hex) ++ " ) | " ++ showNode o.processed
-       | .error f => "err " ++ showErrL f.err ++ " | " ++ showCalls f.calls)
+       | .error f => "err " ++ showErrL f.err ++ " | " ++ showCalls f.calls ++ " | " ++
+                       (match expandDoc [] [] d with
+                        | .ok (n, _) => (match processNode env Gen.loaderTable FUEL n T with
+                                         | .ok _ => "construct" | .error _ => "process")
+                        | .error _ => "expand"))
     | _, _, _ => "bad-args"
   | _ => "bad-args"
 
